@@ -1,4 +1,5 @@
 import NbdimeModel
+import NbdimeProofs.Lemmas.MergeLaws
 import NbdimeProofs.Lemmas.Resolve
 /-
   C05 / C10 — laws of the decision applier (NbdimeModel/Apply.lean) that the merge laws rest on:
@@ -114,5 +115,50 @@ example : Symmetric ⟨[.s "cells"], "local_then_remote", true, some [.addrange 
   refine ⟨?_, ?_, ?_, ?_⟩
   · intro h; exact absurd h (by decide)
   all_goals decide
+
+
+/-! ### the laws for the model of the decision procedure (`NbdimeModel/MergeGeneric.lean`)
+
+  These hold for every base that is an object or array, every pair of diffs, every strategy table,
+  every oracle (similarity predicates, difflib, text merge renderer): the quantifier the property states. -/
+
+open Merge in
+/-- identity: no change on either side, no decision (hence `applyDecisions` returns base: `C05_identity_no_decisions`) -/
+theorem C05_model_identity (E : Env) (base : J) (hc : IsContainer base) : decideMerge E base [] [] = .ok [] :=
+  decideMerge_identity E base hc
+
+open Merge in
+/-- one-sided adoption, decision level: a change on the local side only is never a conflict and every
+    decision takes the local diff -/
+theorem C05_model_onesided_local {E : Env} {base : J} {ld : List Op} {ds : List MD} (hc : IsContainer base)
+    (h : decideMerge E base ld [] = .ok ds) : ∀ d ∈ ds, d.action = "local" ∧ d.conflict = false :=
+  decideMerge_onesided_local hc h
+
+open Merge in
+theorem C05_model_onesided_remote {E : Env} {base : J} {rd : List Op} {ds : List MD} (hc : IsContainer base)
+    (h : decideMerge E base [] rd = .ok ds) : ∀ d ∈ ds, d.action = "remote" ∧ d.conflict = false :=
+  decideMerge_onesided_remote hc h
+
+open Merge in
+/-- agreement: the same diff on both sides is never a conflict and every decision is `either` -/
+theorem C05_model_agreement {E : Env} {base : J} {d : List Op} {ds : List MD} (hc : IsContainer base)
+    (h : decideMerge E base d d = .ok ds) : ∀ x ∈ ds, x.action = "either" ∧ x.conflict = false :=
+  decideMerge_agreement hc h
+
+namespace C05ex
+open Merge
+def exE : Env := { O := { cmp := fun _ _ _ => .ok false, opcodes := fun _ _ => .ok [] }, cfg := defaultCfg,
+                   S := { table := [], transients := [] }, render := fun _ l _ => .ok (l, 0) }
+def exBase : J := .obj [("a", .arr [.int 1, .int 2]), ("b", .int 3)]
+def exLd : List Op := [.patchK "a" [.addrange 1 [.int 9]], .replace "b" (.int 4)]
+def showDs (r : Except Err (List MD)) : List (String × Bool × Nat) :=
+  match r with
+  | .ok ds => ds.map (fun d => (d.action, d.conflict, d.path.length))
+  | .error _ => []
+/-- non-vacuity: the hypotheses `decideMerge … = .ok ds` are met by concrete nested documents -/
+example : showDs (decideMerge exE exBase exLd []) = [("local", false, 1), ("local", false, 0)] := by decide +kernel
+example : showDs (decideMerge exE exBase exLd exLd) = [("either", false, 1), ("either", false, 0)] := by decide +kernel
+example : showDs (decideMerge exE exBase [] exLd) = [("remote", false, 1), ("remote", false, 0)] := by decide +kernel
+end C05ex
 
 end Nbdime
